@@ -72,6 +72,18 @@ def run(tier, seed):
         doubled = [q for q in perm for _ in (0, 1)]
         outs2, _ = em.run_real(cls, setup + doubled)
         other = answers(doubled, outs2[len(setup):])
+        # the same set-cells calls with queries interleaved between them: the final answers may not depend on what was asked before
+        inter = []
+        for op in setup:
+            inter.append(op)
+            inter += [rng.choice(queries) for _ in range(rng.randint(1, 3))]
+        outs3, _ = em.run_real(cls, inter + queries)
+        third = answers(queries, outs3[len(inter):])
+        for k in set(base) | set(third):
+            vals = base.get(k, set()) | third.get(k, set())
+            if len(vals) > 1:
+                chk.violation({'why': 'the answer to a query depends on the queries made between the set-cells calls', 'query': repr(k),
+                               'answers': sorted(vals), 'stream': 'interleaved', 'history': repr(inter + queries)[:1500]})
         chk.count('law:schedules')
         chk.seen(('law', b, repr(queries)))
         for k in set(base) | set(other):
